@@ -49,17 +49,20 @@ theorem N2_DTAU_DF__DTAU_DDF (hc : c * c = 2) (h2 : (2:K) ≠ 0)
     (D : Nat → Nat → K) (g0 g1 g2 g3 g4 d0 d1 d2 d3 d4 : K) (l0 l1 l2 l3 l4 : K) (s : Nat → K) (hJ : (plane g0 g1 g2 g3 g4).det ≠ 0) :
     upper (lamTau ((plane d0 d1 d2 d3 d4) * (plane g0 g1 g2 g3 g4)) (M3.ofMandel c [s 0, s 1, s 2, s 3]) (plane l0 l1 l2 l3 l4) (M3.ofMandel c (act (Gen.N2_DTAU_DF__DTAU_DDF_r c c3 fn D (tensv (plane g0 g1 g2 g3 g4)) (tensv ((plane d0 d1 d2 d3 d4) * (plane g0 g1 g2 g3 g4))) s) (M3.tens2 ((plane l0 l1 l2 l3 l4) * ((plane d0 d1 d2 d3 d4) * (plane g0 g1 g2 g3 g4)))))))
       = upper (lamTau ((plane d0 d1 d2 d3 d4) * (plane g0 g1 g2 g3 g4)) (M3.ofMandel c [s 0, s 1, s 2, s 3]) (plane l0 l1 l2 l3 l4) (M3.ofMandel c (act (rowsOf D i4 i5) (M3.tens2 ((plane l0 l1 l2 l3 l4) * (plane d0 d1 d2 d3 d4)))))) := by
-  have hc0 : c ≠ 0 := c_ne_zero hc h2
-  obtain ⟨h1, h2'⟩ := plane_det_ne hJ
-  have hd0 : Gen.N2_DTAU_DF__DTAU_DDF_den0 c c3 fn D (tensv (plane g0 g1 g2 g3 g4)) (tensv ((plane d0 d1 d2 d3 d4) * (plane g0 g1 g2 g3 g4))) s ≠ 0 := by
-    have : Gen.N2_DTAU_DF__DTAU_DDF_den0 c c3 fn D (tensv (plane g0 g1 g2 g3 g4)) (tensv ((plane d0 d1 d2 d3 d4) * (plane g0 g1 g2 g3 g4))) s = g0 * g1 - g3 * g4 := by
-      c23_unfold <;> (try ring1)
-    rw [this]; exact h1
-  (try c23_unfold at hd0)
-  c23_unfold
-  generalize_ne hd0 => e0 he0
-  (try (repeat' apply And.intro))
-  all_goals (first | rfl | (field_simp <;> (try simp only [← he0]) <;> c23_field hc))
+  have key : (act (Gen.N2_DTAU_DF__DTAU_DDF_r c c3 fn D (tensv (plane g0 g1 g2 g3 g4)) (tensv ((plane d0 d1 d2 d3 d4) * (plane g0 g1 g2 g3 g4))) s) (M3.tens2 ((plane l0 l1 l2 l3 l4) * ((plane d0 d1 d2 d3 d4) * (plane g0 g1 g2 g3 g4)))))
+      = (act (rowsOf D i4 i5) (M3.tens2 ((plane l0 l1 l2 l3 l4) * (plane d0 d1 d2 d3 d4)))) := by
+    have hc0 : c ≠ 0 := c_ne_zero hc h2
+    obtain ⟨h1, h2'⟩ := plane_det_ne hJ
+    have hd0 : Gen.N2_DTAU_DF__DTAU_DDF_den0 c c3 fn D (tensv (plane g0 g1 g2 g3 g4)) (tensv ((plane d0 d1 d2 d3 d4) * (plane g0 g1 g2 g3 g4))) s ≠ 0 := by
+      have : Gen.N2_DTAU_DF__DTAU_DDF_den0 c c3 fn D (tensv (plane g0 g1 g2 g3 g4)) (tensv ((plane d0 d1 d2 d3 d4) * (plane g0 g1 g2 g3 g4))) s = g0 * g1 - g3 * g4 := by
+        c23_unfold <;> (try ring1)
+      rw [this]; exact h1
+    (try c23_unfold at hd0)
+    c23_unfold
+    generalize_ne hd0 => e0 he0
+    (try (repeat' apply And.intro))
+    all_goals (first | rfl | (field_simp <;> (try simp only [← he0]) <;> c23_field hc))
+  rw [key]
 
 /-- `DS_DF ← DS_DC` (2D): along every variation `δF = L F` the converted operator, applied to the
 rate of its kinematic variable, gives the rate of the second Piola–Kirchhoff stress that reproduces the same Lie derivative of
@@ -68,8 +71,11 @@ theorem N2_DS_DF__DS_DC (hc : c * c = 2) (h2 : (2:K) ≠ 0)
     (D : Nat → Nat → K) (F0 : M3 K) (f0 f1 f2 f3 f4 : K) (l0 l1 l2 l3 l4 : K) (s : Nat → K)  :
     upper (lamS (plane f0 f1 f2 f3 f4) (M3.ofMandel c [s 0, s 1, s 2, s 3]) (plane l0 l1 l2 l3 l4) (M3.ofMandel c (act (Gen.N2_DS_DF__DS_DC_r c c3 fn D (tensv F0) (tensv (plane f0 f1 f2 f3 f4)) s) (M3.tens2 ((plane l0 l1 l2 l3 l4) * (plane f0 f1 f2 f3 f4))))))
       = upper (lamS (plane f0 f1 f2 f3 f4) (M3.ofMandel c [s 0, s 1, s 2, s 3]) (plane l0 l1 l2 l3 l4) (M3.ofMandel c (act (rowsOf D i4 i4) (M3.mandel2 c (dC (plane f0 f1 f2 f3 f4) (plane l0 l1 l2 l3 l4)))))) := by
-  have hc0 : c ≠ 0 := c_ne_zero hc h2
-  c23_rat0 hc
+  have key : (act (Gen.N2_DS_DF__DS_DC_r c c3 fn D (tensv F0) (tensv (plane f0 f1 f2 f3 f4)) s) (M3.tens2 ((plane l0 l1 l2 l3 l4) * (plane f0 f1 f2 f3 f4))))
+      = (act (rowsOf D i4 i4) (M3.mandel2 c (dC (plane f0 f1 f2 f3 f4) (plane l0 l1 l2 l3 l4)))) := by
+    have hc0 : c ≠ 0 := c_ne_zero hc h2
+    c23_rat0 hc
+  rw [key]
 
 /-- `DTAU_DF ← DPK1_DF` (2D): along every variation `δF = L F` the converted operator, applied to the
 rate of its kinematic variable, gives the rate of the Kirchhoff stress that reproduces the same Lie derivative of
